@@ -1,22 +1,15 @@
-"""Per-property registry: driver, bounds text, enumeration rule (goes into the evidence)."""
+"""Per-property registry: every run/reg_*.py defines PID and SPEC (driver, bounds text, enumeration rule,
+manifest texts). Collected here."""
+import glob, os, importlib.util
+
 PROPS = {}
 NOT_APPLICABLE = {}
 HOOK_COMMITS = []
 
-PROPS['C03'] = dict(
-    driver='c03_chain',
-    rule='Bounded-exhaustive enumeration. A case is one aggregation chain (link sequence: direction x sibling kind '
-         '{imprint, legacy id, metadata with/without padding} x level correction; hashed under an algorithm) evaluated at several '
-         'start levels, or one calendar chain (direction x sibling algorithm per link), or one calendar shape evaluated against '
-         'EVERY publication time 0..Pmax. Distinct = distinct case name (the enumeration index tuple); non-trivial = the reference '
-         'either computed a root/time that was compared with the library output or demanded rejection.',
-    bounds=dict(
-        quick='aggregation: all link sequences len<=2 over 2 dirs x 4 sibling kinds x 14 corrections x 6 start levels; all 10 algorithm ids x 10 input algorithms x len<=2; all 2^n direction patterns n<=8 (+n=61..63 boundary patterns) incl. shape index; long chains 13..257 around level 255; chain lists of 1..3 chains; calendar roots: all chains len<=4 over dir x 3 sibling algorithms x 3 input algorithms; registration time: all shapes len<=8 x all P in 0..256, plus 12 large-P boundary families with all one-link perturbations',
-        thorough='as quick with link sequences len<=3 (7 corrections), direction patterns n<=12, calendar roots len<=6, registration time all shapes len<=12 x all P in 0..4096'),
-    technique='bounded-exhaustive input enumeration on the compiled code, compared with an independent reference chain/calendar arithmetic',
-    level_text='Every element of a stated finite input space (see evidence.bounds) is executed on the real libksi object code under ASan/UBSan and compared with an independent reference implementation of the KSI chain formula; nothing is sampled. This is the right level because the property is a universally quantified input/output relation of pure functions: a complete bounded enumeration around every boundary visible in the code (level 255, corrections 255/256/2^31/2^32/2^64-1, algorithm switch, highest-bit arithmetic) decides it within the bound.',
-    level_note='Trusted: OpenSSL digest primitives, the reference arithmetic in harness/ref/ref.c, gcc sanitizers. Inputs beyond the stated bounds are not covered.',
-    require_outcomes=['aggr:a1:reject-expected:*', 'aggr:a1:accept-expected:ok', 'cal-root:alg*'],
-    assumptions=['OpenSSL EVP digest primitives are correct (shared by the library and the reference)',
-                 'the reference chain arithmetic in harness/ref/ref.c is a faithful transcription of the KSI chain formula'],
-)
+_here = os.path.dirname(os.path.abspath(__file__))
+for _f in sorted(glob.glob(os.path.join(_here, 'reg_*.py'))):
+    _spec = importlib.util.spec_from_file_location(os.path.basename(_f)[:-3], _f)
+    _m = importlib.util.module_from_spec(_spec)
+    _spec.loader.exec_module(_m)
+    PROPS[_m.PID] = _m.SPEC
+PROPS = dict(sorted(PROPS.items()))
